@@ -36,12 +36,23 @@ struct Obj {
 // C++ chain Node<0> <- Node<1> <- ... whose *static* ids are run-time values:
 // lets virtual_ptr take its "static type == dynamic type" shortcut for
 // arbitrary spec classes.
-template<int I>
-struct Node : Node<I - 1> {};
-template<>
-struct Node<0> : Obj {};
 constexpr int kNodes = 4;
 extern type_id g_node_static_id[kNodes];
+extern int g_node_cls[kNodes];
+template<int I>
+struct Node : Node<I - 1> {
+    Node() {
+        this->id = g_node_static_id[I];
+        this->cls = g_node_cls[I];
+    }
+};
+template<>
+struct Node<0> : Obj {
+    Node() {
+        this->id = g_node_static_id[0];
+        this->cls = g_node_cls[0];
+    }
+};
 
 template<class T>
 struct node_index {
@@ -154,6 +165,23 @@ struct IRunner {
     virtual int class_of_id(type_id id) const = 0; // -1 if not an id of the universe
     virtual std::string shape_of(int m) const = 0;
     virtual std::string layout_json() const = 0; // as of the last successful update
+    // ---- virtual_ptr handles (C09 / C15)
+    // node k of the C++ chain Node<0..3> stands for spec class c (its static id); before registering c
+    virtual bool map_node(int k, int c) = 0;
+    struct VpResult {
+        bool ok = false;          // handle created
+        int err = 0;              // 0 none, 1 unknown class, 2 method table error, 9 unsupported
+        int err_cls = -1;
+        int oid = 0;
+        int dyn = 0;
+    };
+    // route: ref | final | sh_lv | sh_rv | sh_base | sh_final | mk ; pointee of dynamic class c
+    virtual VpResult vp_make(int h, int k, const std::string& route, int c) = 0;
+    // route: copy | move | conv (to node k) | cast (to node k)
+    virtual VpResult vp_derive(int h, int from, const std::string& route, int k) = 0;
+    virtual void vp_drop(int h) = 0;
+    virtual bool vp_ids(int h, int out[3]) = 0;  // pointee identity through get(), operator* and operator->
+    virtual CallResult vp_call(int m, const std::vector<int>& hs) = 0;
     // fired by the "return"-kind handler before it returns
     void (*on_error_return)(const Caught&) = nullptr;
 };
